@@ -64,6 +64,10 @@ def run(ctx, proof):
         reps = rng.randint(1, 4)
         limit = rng.randint(1, 2 ** n - n - 2)
         hidden_games = [games.sa_closure_game(rng, n, rng.choice(["int", "dyadic"]), neg_singletons=False) for _ in range(3)]
+        if rng.random() < 0.35:
+            # large values with a small cooperation surplus: episodes must still be played to the end
+            off = 10 ** rng.randint(5, 7)
+            hidden_games = [[off * games.popcount(i) + g[i] for i in range(2 ** n)] for g in hidden_games]
         log = []
 
         def env_gen():
@@ -96,6 +100,13 @@ def run(ctx, proof):
                     fails.append((j, "action matrix differs from the coalitions revealed", list(acts[:, j]), rec["actions"]))
                 if len(set(rec["actions"])) != k or any(a in games.minimal_ids(n) for a in rec["actions"]):
                     fails.append((j, "actions not distinct / not explorable", rec["actions"]))
+                if k < limit and k < 2 ** n - n - 2:
+                    # the episode stopped early: allowed only if every interval is degenerate at that point
+                    K = sorted(games.minimal_ids(n) + rec["actions"])
+                    st_, tab_ = bl.impl_compute(comp, n, rec["hidden"], K)
+                    if st_ == "ok" and any(h != l for _, l, h in tab_):
+                        fails.append((j, f"episode stopped after {k} of {limit} steps although intervals are not degenerate "
+                                         f"(rows {k + 1}.. of the gap matrix are not trajectory values)", rec["actions"]))
                 col = replay_column(n, comp, gap, rec["hidden"], rec["actions"])
                 got = [float(x) for x in expl[:k + 1, j]]
                 if not all(close(a, b, 1e-9, max(1.0, abs(b))) for a, b in zip(got, col)):
@@ -177,9 +188,8 @@ def run(ctx, proof):
                 ctx.violation("correspondence 'stream wiring of evaluate() = Evaluate.v scheme' broke: the sequential run matches neither "
                               "the shared-stream nor the per-environment-stream model",
                               {"generator": gen_name, "seed": seed, "reps": reps, "row0": row0}, found_input=False)
-                continue
             # model prediction per process count
-            for p in proc_choices:
+            for p in (proc_choices if scheme is not None else []):
                 out = run_driver([f"eldraws {scheme} {reps} {-1 if p == 1 else p}"])[0]
                 pred = [tok for tok in out.split("|")[0].split()]
                 r0 = [float(x) for x in results[p][0][0]]
